@@ -206,7 +206,8 @@ class Pair:
 
 
 # =============================================================================== script
-AMOUNT_FRACS = (None, None, 0.05, 0.3, 0.5, 0.9, 1.0, 1.5)
+# 0.999996 / 1.000004: within the wallet's 0.001 % "that is all of it" tolerance of the balance without being equal to it
+AMOUNT_FRACS = (None, None, 0.05, 0.3, 0.5, 0.9, 1.0, 1.5, 0.999996, 1.000004)
 
 
 def _frac_cls(f):
